@@ -294,7 +294,7 @@ func TestBroadcastGrad(t *testing.T) {
 		"Div": func(a, b tensor.Tensor) (tensor.Tensor, error) { return a.Div(b) },
 		"Dot": func(a, b tensor.Tensor) (tensor.Tensor, error) { return a.Dot(b) },
 	}
-	pairs := [][2][]int{{{2, 3}, {3}}, {{3}, {2, 3}}, {{2, 1}, {2, 3}}, {{2, 3}, {1, 3}}, {{2, 2, 3}, {2, 1, 3}}, {{1}, {2, 2}}, {{}, {2}}}
+	pairs := [][2][]int{{{2, 3}, {3}}, {{3}, {2, 3}}, {{2, 1}, {2, 3}}, {{2, 3}, {1, 3}}, {{2, 2, 3}, {2, 1, 3}}, {{1}, {2, 2}}, {{}, {2}}, {{1, 3}, {3}}, {{1, 1}, {1}}}
 	for name, f := range impl {
 		for _, p := range pairs {
 			if name == "Dot" && (len(p[0]) == 0 || len(p[1]) == 0 || p[0][len(p[0])-1] != p[1][len(p[1])-1]) {
@@ -302,6 +302,9 @@ func TestBroadcastGrad(t *testing.T) {
 			}
 			f := f
 			c := opCase{name: "implicit/" + name, arity: 2, apply: func(xs []tensor.Tensor) (tensor.Tensor, error) { return f(xs[0], xs[1]) }}
+			if numel(p[0]) == numel(p[1]) {
+				c.name += "/factor1" // no element is copied more than once
+			}
 			xs := []Ref{randRef(rng, p[0], 0.5, 2), randRef(rng, p[1], 0.5, 2)}
 			checkVJP(r, c, xs, []bool{true, true}, rng)
 		}
